@@ -96,6 +96,18 @@ class Other:
 	n: int
 	def __init__(self) -> None:
 		self.n = 1''',
+'''class Alpha:
+	def value(self) -> int:
+		return 1
+def run() -> None:
+	a = Alpha()
+	print(a.value())''',
+'''class Beta:
+	def value(self) -> int:
+		return 1
+def run() -> None:
+	a = Beta()
+	print(a.value())''',
 ]
 
 # programs whose imports form a cycle through the submitted module itself
